@@ -1,5 +1,5 @@
 /-
-  Helper lemmas for C01 (`lower_sound'`, the fragment with powers and elementary functions), part 1:
+  Helper lemmas for C01 (`lower_sound_ext`, the fragment with powers and elementary functions), part 1:
   the extended lowered scalar forms `LX` (the forms `LS` plus `pow` and `fn`), the budgeted
   non-degeneracy condition `NDk S k t` ("`t` may be differentiated `k` more times": bases of powers
   that reach a negative exponent within `k` derivatives, arguments of `log`, values of `tan` are
